@@ -1,4 +1,5 @@
 import Cpl.Ties.Common
+import Cpl.Ties.Lemmas
 
 /-!
 # C11 — the translated source of `game_of_life_rule` equals the model on its complete domain
@@ -16,5 +17,22 @@ open Cpl Cpl.Gen Cpl.Ties
 theorem gol_source_tie :
     ∀ l ∈ all512, Gen.gol (envOfGrid (gridOf l)) .none .none = ofOpt (golRule (gridOf l)) := by
   decide +kernel
+
+/-- **Translated `game_of_life_rule` = model, for every integer neighbourhood** (any shape, any cell values,
+    whatever `c`, `t`) — structural: both sides are the same if-cascade over the centre cell and the total. -/
+theorem gol_source_tie_all (g : List (List Int)) (c t : V) :
+    Gen.gol (envOfGrid g) c t = ofOpt (golRule g) := by
+  unfold Gen.gol golRule
+  simp only [Id.run, pure, envOfGrid, V.sub_int, V.eq_int, V.lt_int, V.gt_int, Bool.or_eq_true,
+    decide_eq_true_eq]
+  generalize (g.getD 1 []).getD 1 0 = ctr
+  generalize g.flatten.foldl (· + ·) 0 = tot
+  by_cases h1 : ctr = 1 <;> simp only [h1, if_true, if_false]
+  · by_cases h2 : tot - 1 < 2 <;> simp only [h2, if_true, if_false]
+    · rfl
+    · by_cases h3 : tot - 1 = 2 ∨ tot - 1 = 3 <;> simp only [h3, if_true, if_false]
+      · rfl
+      · by_cases h4 : tot - 1 > 3 <;> simp only [h4, if_true, if_false] <;> rfl
+  · by_cases h2 : tot = 3 <;> simp only [h2, if_true, if_false] <;> rfl
 
 end Cpl.C11
